@@ -721,8 +721,15 @@ func enumPacks() {
 					for li := 0; li < 3; li++ {
 						for si := 0; si < 2; si++ {
 							for _, at := range []string{"", "application/vnd.example.thing", "not a type", ocispec.MediaTypeImageManifest} {
-								for _, created := range enumCreated {
+								for ci, created := range enumCreated {
+									// quick: the leniency variants of created only on the plain option set
+									if !run.Thorough() && ci >= 4 && (li != 0 || si != 0) {
+										continue
+									}
 									for pi := 0; pi < 3; pi++ {
+										if !run.Thorough() && ci >= 4 && pi != 0 {
+											continue
+										}
 										for _, fa := range fails {
 											sp := &spec{Fn: fn, Target: tg, Exists: ex, FailAt: fa, AT: at, Config: cfg, Backed: backing}
 											switch li {
